@@ -1,6 +1,7 @@
 package main
 
 import (
+	"os"
 	"fmt"
 	"go/types"
 	"math/big"
@@ -51,6 +52,10 @@ type Ctx struct {
 	quant    bool
 	nonzero  map[string]bool
 	sliceParts map[string][4]string
+	bitFoot    map[string][2]int
+	heapDef    map[string][3]string // named heap constant -> (base heap, object ref, inner value) of its defining store
+	finalObl   bool // obligations at a return: nothing follows, so they are not added to the assumptions
+	skForm     map[string]string // quantified goal -> form with goal-position quantifiers skolemised
 	heapCellT map[string]types.Type // heap name -> Go type of one cell (nil for ghost)
 	heapDims  map[string]int        // 1: Array Int T, 2: Array Int (Array Int T) / map
 	heapKeyS  map[string]string     // second-dimension index sort (for element / map heaps)
@@ -61,7 +66,7 @@ type Ctx struct {
 func newCtx(P *Program) *Ctx {
 	c := &Ctx{P: P, declared: map[string]bool{}, sorts: map[string]string{}, structs: map[string]*types.Struct{},
 		heapSort: map[string]string{}, typeIDs: map[string]int{}, notes: map[string]bool{}, ordinals: map[string]int{},
-		strLits: map[string]bool{}, nonzero: map[string]bool{}, sliceParts: map[string][4]string{},
+		strLits: map[string]bool{}, nonzero: map[string]bool{}, sliceParts: map[string][4]string{}, skForm: map[string]string{}, heapDef: map[string][3]string{},
 		heapCellT: map[string]types.Type{}, heapDims: map[string]int{}, heapKeyS: map[string]string{}, heapReg: map[string]func(*Ctx){}}
 	c.typeByID = append(c.typeByID, nil)
 	c.decls = append(c.decls, "(assert (forall ((a! (Array Int Int)) (o! Int) (n! Int)) (! (= (bv.len (bv.of a! o! n!)) n!) :pattern ((bv.of a! o! n!)))))")
@@ -163,9 +168,14 @@ func (c *Ctx) oblige(kind string, tags []string, guard, goal, where, detail stri
 		c.ordinals[key]++
 		o := &Obligation{Name: fmt.Sprintf("%s@%d", key, c.ordinals[key]), Func: c.curFunc, Kind: kind, Tags: tags,
 			Pos: len(c.asserts), Guard: guard, Goal: goal, Where: where, Detail: detail}
+		if sk, ok := c.skForm[goal]; ok {
+			o.Goal = c.simplify(sk)
+		}
 		c.obls = append(c.obls, o)
 	}
-	c.assume(guard, goal)
+	if !c.finalObl {
+		c.assume(guard, goal)
+	}
 }
 
 func qsym(s string) string {
@@ -730,10 +740,33 @@ func (s *State) get(name string) string {
 
 func (s *State) set(name, term string) {
 	// keep terms small: name every update
-	srt := s.c.heapSort[name]
+	c := s.c
+	srt := c.heapSort[name]
 	if len(term) > 60 {
-		k := s.c.freshConst("h:"+name, srt)
-		s.c.assert(eq(k, term))
+		// Repeated updates of the same object collapse: with X := (store B r A'), the update
+		// (store X r (.. (select X r) ..)) is (store B r (.. A' ..)), so reads of other objects skip the whole
+		// history of r in one step and the history of r is a chain over its own (inner) array only.
+		if strings.HasPrefix(term, "(store ") && strings.HasPrefix(srt, "(Array Int (Array ") && os.Getenv("GOVC_NOCOLLAPSE") == "" {
+			if n := parseSx(term); len(n.kids) == 4 {
+				base, ref, inner := n.kids[1].String(), n.kids[2].String(), n.kids[3].String()
+				if d, ok := c.heapDef[base]; ok && d[1] == ref {
+					inner = strings.ReplaceAll(inner, "(select "+base+" "+ref+")", d[2])
+					base = d[0]
+				}
+				if len(inner) > 60 {
+					ia := c.freshConst("arr:"+name, strings.TrimSuffix(strings.TrimPrefix(srt, "(Array Int "), ")"))
+					c.assert(eq(ia, inner))
+					inner = ia
+				}
+				k := c.freshConst("h:"+name, srt)
+				c.assert(eq(k, sto(base, ref, inner)))
+				c.heapDef[k] = [3]string{base, ref, inner}
+				s.heap[name] = k
+				return
+			}
+		}
+		k := c.freshConst("h:"+name, srt)
+		c.assert(eq(k, term))
 		term = k
 	}
 	s.heap[name] = term
